@@ -77,7 +77,7 @@ impl<M: MovingAverageConstructor> IndicatorConfig for RelativeVigorIndex<M> {
 		let rvi = 0.0; // if d_hl == 0. { 0. } else { d_close / d_hl };
 
 		Ok(Self::Instance {
-			prev_close: candle.open(),
+			prev_close: candle.close(),
 			swma1: SWMA::new(cfg.period2, d_close)?,
 			sma1: SMA::new(cfg.period1, d_close)?,
 			swma2: SWMA::new(cfg.period2, d_hl)?,
